@@ -120,7 +120,7 @@ theorem step_pinv {c : Cfg} {s s' : St} (hi : Inv s) (h : PInv s) (l : Label) (h
         | ok => simp only [Option.some.injEq] at hs; subst hs; exact reg _
         | panic =>
           simp only [Option.some.injEq] at hs; subst hs
-          exact pinv_congr (reg { s.subs k with pc := .waiting, calls := (s.subs k).calls ++ rc, replayed := rc.length, regAt := some s.log.length }) rfl rfl rfl rfl rfl rfl
+          exact pinv_congr (reg { s.subs k with pc := .waiting, calls := (s.subs k).calls ++ rc, replayed := rc.length, regAt := some s.log.length, storeAt := s.store }) rfl rfl rfl rfl rfl rfl
         | err =>
           simp only [Option.some.injEq] at hs; subst hs
           simp only [sendChan, closeChan, setSub, upd_same, hch0]
